@@ -16,6 +16,7 @@ def check(A):
         C.send_request_rule(A, cf, 'C09')
         C.reset_rules(A, cf, 'C09')
         C.status_gate_rule(A, cf, 'C09')
+        C.request_result_rule(A, cf, 'C09')
         C.loop_condition_rule(A, cf, 'C09')
         C.write_loop_sentinel_rule(A, cf, 'C09')
     C.url_rule(A, 'C09')
